@@ -33,6 +33,16 @@ func main() {
 		cmdVC(os.Args[2:])
 	case "check":
 		cmdCheck(os.Args[2:])
+	case "refgen":
+		p, err := loadAll()
+		if err != nil {
+			fmt.Fprintln(os.Stderr, err)
+			os.Exit(2)
+		}
+		if err := p.refgen(filepath.Join(verifDir, "ref", "wordlists")); err != nil {
+			fmt.Fprintln(os.Stderr, err)
+			os.Exit(2)
+		}
 	default:
 		fmt.Fprintln(os.Stderr, "unknown command", os.Args[1])
 		os.Exit(2)
@@ -230,7 +240,3 @@ func cmdVC(args []string) {
 	}
 }
 
-func cmdCheck(args []string) {
-	fmt.Fprintln(os.Stderr, "check: not implemented yet")
-	os.Exit(2)
-}
